@@ -128,6 +128,24 @@ def I12(st, W, snap=None):
     return Implies(wire_has_close(st), Or(s.get(W.state, 'closing'), s.get(W.state, 'closed')))
 
 
+def rely_other_threads(ip, W, base):
+    """Owicki-Gries rely at a point where this thread may have had to wait for the session lock: starting from the
+    flags in `base` (a snapshot), other threads may have closed the websocket - the flags only move forward
+    (open -> closing -> closed), the socket may have been released, a Close may have reached the wire - and I12 holds
+    whenever the lock is free.  Installs the new values in the heap."""
+    st = ip.st
+    c0, d0 = base.get(W.state, 'closing'), base.get(W.state, 'closed')
+    s0 = base.get(W.session, '_sock')
+    c1, d1 = fresh('closing_rely', B), fresh('closed_rely', B)
+    st.heap[W.state.oid].f['closing'] = c1
+    st.heap[W.state.oid].f['closed'] = d1
+    st.assume(Implies(d0, d1), Implies(c0, Or(c1, d1)))
+    if isinstance(s0, SOpt):
+        st.heap[W.session.oid].f['_sock'] = SOpt(Or(s0.is_none, fresh('sock_gone_rely', B)), s0.val)
+    st.ghost['wc'] = Or(wire_has_close(st), fresh('wc_rely', B))
+    st.assume(I12(st, W))
+
+
 def install_flag_monitor(ip, W):
     """interference freedom (Owicki-Gries): every assignment to state.closing / state.closed made
     OUTSIDE the lock must preserve I12, at the granularity of single attribute stores"""
